@@ -321,7 +321,7 @@ func checkBuilders(r *Report, p *Prog) {
 		}
 		read := map[int]bool{}
 		emitted := map[int][]ssa.Instruction{} // slice fields
-		locals := map[ssa.Value]string{}      // inline child elements: NewElement results other than the root
+		locals := map[ssa.Value]string{}       // inline child elements: NewElement results other than the root
 		for _, blk := range fn.Blocks {
 			for _, in := range blk.Instrs {
 				if c, ok := in.(*ssa.Call); ok && calleeIs(c, etreePath+".NewElement") && c != b.root {
@@ -818,7 +818,6 @@ func checkSessionCopy(r *Report, p *Prog) {
 	}
 }
 
-
 type fieldKey struct {
 	T *types.Named
 	i int
@@ -870,8 +869,12 @@ func checkRegistration(r *Report, p *Prog) {
 	fm := am.Ctx(md)
 	apOf := func(fc *FuncCtx, fn *ssa.Function, typ, field string) []string {
 		var out []string
-		for _, st := range litFields(fn, modPath, typ)[field] {
-			out = append(out, fc.AP(st.Val))
+		sts := litFields(fn, modPath, typ)[field]
+		if len(sts) == 0 {
+			sts = helperLitFields(p, fn, modPath, typ, field)
+		}
+		for _, st := range sts {
+			out = append(out, strings.TrimPrefix(canonFirstSet(fc.A.Ctx(st.Parent()), st.Val), "saml."))
 		}
 		return out
 	}
@@ -906,6 +909,9 @@ func checkRegistration(r *Report, p *Prog) {
 				}
 			}
 		}
+	}
+	for i := range audWant {
+		audWant[i] = strings.TrimPrefix(audWant[i], "saml.")
 	}
 	audWant, rcptWant = uniqStrings(audWant), uniqStrings(rcptWant)
 	r.Check(len(audWant) == 1 && audWant[0] == ent[0], rule, "the audience the SP insists on is the entity ID it publishes", p.Pos(md.Pos()), ent[0], fmt.Sprintf("Metadata() publishes %s but the validator compares audiences with %v: an IdP configured from the published metadata is rejected", ent[0], audWant))
@@ -997,7 +1003,6 @@ func gatedLeaves(v ssa.Value, via []*ssa.BasicBlock, seen map[ssa.Value]bool) []
 	}
 	return []gatedLeaf{{v, via}}
 }
-
 
 // checkPrefixClosure: every tree that is serialised or signed on its own declares the namespace prefixes its nodes use.
 func checkPrefixClosure(r *Report, p *Prog, bs []*builder, byType map[*types.Named]*builder) {
